@@ -92,3 +92,25 @@ var userDialect = &dialect.Dialect{
 		&MessageUserStr{}, &MessageUserEnums{}, &MessageUserOne{},
 	},
 }
+
+// ids that differ only above bit 8 / bit 16: a lookup table indexed by part of the id would confuse them
+type MessageUserWideA struct{ V uint8 }
+
+func (*MessageUserWideA) GetID() uint32 { return 300 }
+
+type MessageUserWideB struct{ V uint16 }
+
+func (*MessageUserWideB) GetID() uint32 { return 300 + 65536 }
+
+type MessageUserWideC struct{ V uint32 }
+
+func (*MessageUserWideC) GetID() uint32 { return 300 + 3*65536 + 256 }
+
+type MessageUserWideD struct{ V int8 }
+
+func (*MessageUserWideD) GetID() uint32 { return 1<<24 - 1 }
+
+var userWideDialect = &dialect.Dialect{
+	Version:  3,
+	Messages: []message.Message{&MessageUserWideA{}, &MessageUserWideB{}, &MessageUserWideC{}, &MessageUserWideD{}},
+}
